@@ -33,7 +33,11 @@ def lexer_step(prop, tier, seed, t0, what):
     chunks = H.chunks(tier, N)
     res = R.run_pool(H.HNAME, chunks, budget, seed, tier, extra=dict(props=[prop], sample_rate=0.05 if tier == "quick" else 0.02))
     agg = R.merge(res)
-    bounds = dict(window_chars=N, alphabet="ASCII 0..127 (every character symbolic)", start_line=">= 1 (unbounded)",
+    bounds = dict(window_chars=N, alphabet="ASCII 0..127 (every character symbolic)",
+                  family_windows=dict(identifier="2..20 identifier characters (every character symbolic over [A-Za-z0-9_]) + one delimiter out of "
+                                                 + repr(H.FAM_DELIMS) + ": every keyword / reserved spelling of the dictionaries up to that length",
+                                      block_comment="'/*' + 3..4 (quick) / 3..6 (thorough) body characters over " + repr(H.COMMENT_BODY) + " + '*/'"),
+                  start_line=">= 1 (unbounded)",
                   start_column=">= 1 (unbounded)", per_path_alarm_s=5,
                   outside="tokens (incl. look-ahead) longer than the window; non-ASCII input",
                   induction="L1+L2 of DESIGN.md section 3: one get_next_token() step from an arbitrary start position")
@@ -54,14 +58,18 @@ def c10(tier, seed, t0):
 
 def edits(prop, tier, seed, budget):
     from harness import edits as H
-    res = R.run_pool(H.HNAME, H.chunks(tier, [prop]), budget, seed, tier,
+    res = R.run_pool(H.HNAME, H.chunks(tier, [prop], seed), budget, seed, tier,
                      extra=dict(props=[prop], sample_rate=0.05 if tier == "quick" else 0.02, chunk_time=40 if tier == "quick" else 400,
-                                alarm=8.0 if tier == "quick" else 20.0))
+                                alarm=8.0 if tier == "quick" else 20.0), shuffle=False)
     return R.merge(res), H
 
 
-EDIT_BOUNDS = dict(base_programs="quick: fn.c, ty.h; thorough: fn.c, gl.c, ty.h, pp.c (harness/edits.py BASE_SRC), each behind a valid 42 header",
-                   edit_sites="every (quick: every second) token boundary after the header",
+EDIT_BOUNDS = dict(base_programs="quick: fn.c, ty.h, zoo.c; thorough: fn.c, gl.c, ty.h, zoo.c, pp.c (harness/edits.py BASE_SRC), each behind a valid 42 "
+                                 "header; zoo.c holds one statement of nearly every primary rule kind, conforming or not (typedef / enum blocks, casts, "
+                                 "ternaries, for, do-while, switch, goto + label, calls)",
+                   edit_sites="every (quick: every second; zoo.c every fourth) token boundary after the header",
+                   open_state_cuts="the first k lines for k = 0..16 with / without the final newline (inside / right after the 42 header, inside the "
+                                   "first statements), a cut in the middle of header lines 3 and 11 (unterminated comment), the empty file",
                    inserted_lexeme="one lexeme of solver-chosen spelling, length 1..4 (quick) / 1..6 (thorough): any keyword, operator, bracket, "
                                    "digraph/trigraph, identifier, numeric constant, string, char, // or /* */ comment, blank, tab, newline",
                    structural_edits="cut (with / without trailing newline), delete 1-2 tokens, swap adjacent tokens, duplicate a token",
@@ -75,9 +83,10 @@ def c05(tier, seed, t0):
     res = R.run_pool(HL.HNAME, HL.chunks(tier, N), 100 if tier == "quick" else 1500, seed, tier,
                      extra=dict(props=["C05"], sample_rate=0.05 if tier == "quick" else 0.02))
     agg1 = R.merge(res)
-    agg2, HE = edits("C05", tier, seed, 110 if tier == "quick" else 3000)
+    agg2, HE = edits("C05", tier, seed, 150 if tier == "quick" else 3000)
     agg = merge2(agg1, agg2)
     bounds = dict(tokenizer=dict(window_chars=N, alphabet="ASCII 0..127", start="symbolic line/column >= 1",
+                                 family_windows="identifiers of 2..20 characters + delimiter; block comments with 3..4/6 body characters",
                                  claim="one get_next_token() step returns and raises nothing; induction L2"),
                   pipeline=EDIT_BOUNDS, per_path_alarm_s="5 (lexer) / 8 (pipeline)")
     return report_multi("C05", {HL.HNAME: agg1, HE.HNAME: agg2}, agg, tier, seed, t0, bounds, LEX_FUNCS + PIPE_FUNCS,
@@ -266,12 +275,15 @@ def c08(tier, seed, t0):
     res = R.run_pool(H.HNAME, H.chunks(tier), 150 if tier == "quick" else 1800, seed, tier,
                      extra=dict(sample_rate=0.05 if tier == "quick" else 0.02), shuffle=False)
     agg1 = R.merge(res)
-    agg2, HE = edits("C08", tier, seed, 80 if tier == "quick" else 1500)
+    agg2, HE = edits("C08", tier, seed, 100 if tier == "quick" else 1500)
     agg = merge2(agg1, agg2)
     bounds = dict(wellformed_on_real_runs=EDIT_BOUNDS,
                   laws="3 diagnostics x 1..2 highlights each (quick: at most one diagnostic with 2); line/column unbounded integers >= 1; 3 names, 2 levels, 3 hint lengths",
                   order="2..3 (quick, <=4 highlights in total) / 2..4 (thorough) diagnostics x 1..2 highlights, every insertion order (positions symbolic)",
                   formats="every witness is pushed through both real formatters natively, with and without colours",
+                  humanized_text="2..3 diagnostics with solver-chosen codes (incl. BAD_LEXEME and a repeated code) and levels whose TEXT is symbolic "
+                                 "(2 characters each over printable ASCII): the real HumanizedErrorsFormatter runs on them and each printed line must "
+                                 "carry its own diagnostic's text (z3 query), with and without colours",
                   precondition="highlights[0] is the smallest highlight of a diagnostic (true of every producer in the code base)",
                   outside="diagnostics without highlight (excluded by the property: 'a position inside the file'); catalogue/position "
                           "well-formedness on real runs is monitored by the C01/C09/C11 explorations")
@@ -334,7 +346,7 @@ def c14(tier, seed, t0):
 @register("C07")
 def c07(tier, seed, t0):
     from harness import conform as HC
-    agg1, HE = edits("C07", tier, seed, 110 if tier == "quick" else 1800)
+    agg1, HE = edits("C07", tier, seed, 150 if tier == "quick" else 1800)
     n = 24 if tier == "quick" else 300
     res = R.run_pool(HC.HNAME, HC.chunks(tier, n), 80 if tier == "quick" else 1200, seed, tier,
                      extra=dict(prop="C07", sample_rate=0.1 if tier == "quick" else 0.03, max_ops=1, chunk_time=40 if tier == "quick" else 120),
@@ -356,7 +368,7 @@ def c07(tier, seed, t0):
 @register("C06")
 def c06(tier, seed, t0):
     from harness import purity as HP
-    agg1, HE = edits("C06", tier, seed, 130 if tier == "quick" else 1800)
+    agg1, HE = edits("C06", tier, seed, 170 if tier == "quick" else 1800)
     res = R.run_pool(HP.HNAME, HP.chunks(tier), 150 if tier == "quick" else 600, seed, tier, extra=dict(chunk_time=140))
     agg2 = R.merge(res)
     agg = merge2(agg1, agg2)
@@ -404,11 +416,13 @@ def c12(tier, seed, t0):
 def c16(tier, seed, t0):
     from harness import options as H
     res = R.run_pool(H.HNAME, H.chunks(tier), 170 if tier == "quick" else 2400, seed, tier,
-                     extra=dict(sample_rate=0.1 if tier == "quick" else 0.03, chunk_time=60 if tier == "quick" else 300))
+                     extra=dict(sample_rate=0.1 if tier == "quick" else 0.03, chunk_time=60 if tier == "quick" else 300), shuffle=False)
     agg = R.merge(res)
     bounds = dict(pipeline_runs="per path class: debug 0, debug D (solver-chosen 1..2), -R <word> (3 or 11 symbolic letters, != CheckDefine), -R CheckDefine",
                   texts=dict(define_programs=sorted(H.DEFINE_PROGS), edited_programs="one inserted lexeme (length 1..3, solver-chosen spelling) at every "
                              "4th (quick) / every (thorough) token boundary of fn.c, gl.c (+ ty.h, pp.c thorough)"),
+                  cli_R="real main() on a file with #define diagnostics: -R <word>, every letter of the word symbolic, 1..14 letters "
+                        "(quick: 1, 10..13), delivered in the shape the real argparse configuration produces, versus no -R",
                   cli=dict(content="--cfile / --hfile content of 0..2 (quick) / 0..3 (thorough) symbolic ASCII characters vs the same content read from n.c / n.h",
                            options=H.OPTS, note="argparse runs for real on the other arguments; the content argument is substituted after parsing"),
                   outside="-f json with symbolic diagnostics (json.dumps is C code; format equality is C08's subject); longer inline contents")
@@ -430,8 +444,9 @@ def c02(tier, seed, t0):
     bounds = dict(program_instances=n, operators={k: sorted(v[1]) for k, v in sorted(V.OPS.items())},
                   sites="<= 4 sites per operator and program, spread over the file; the site is a solver-chosen index (one class per site)",
                   symbolic="every identifier / macro / include-path slot (first letter avoiding l/u/L/U)",
-                  outside="two simultaneous violations; operators of DESIGN 4.2 not implemented here: 09, 15-17, 23/34-36 (C03), 25, 29, 39, 42, 54, "
-                          "62, 63, 65, 71, 73, 75, 76, 78-80; violations of rules the tool does not enforce at all")
+                  outside="two simultaneous violations; operators of DESIGN 4.2 not implemented here: 09, 23/34-36/81 (C03's subject), 71 (tab form), "
+                          "75 (#else / #if forms), 76, 77 (enum / union forms); 40 and 59 were dropped at calibration; violations of rules the tool "
+                          "does not enforce at all")
     return R.report("C02", H.HNAME, tier, seed, agg, t0, bounds, functions=PIPE_FUNCS,
                     assumptions=["expected code per operator: DESIGN.md 4.2 catalogue, calibrated on the pinned tool",
                                  "internal exceptions on an edited file are C05's subject and not counted here"])
